@@ -143,6 +143,17 @@ CLAIMED["C09"] = dict(
               "CFG edge-dominance",
     design="3/C09")
 
+CLAIMED["C18"] = dict(
+    text="Confinement rule over the staging/deployment sinks: every path joined from a base directory and an untrusted "
+         "name (archive member name / link target, manifest key) must pass a reachable, normalising containment test that "
+         "raises before extractall/copytree/copy/symlink; link members must be examined (or a safe extraction filter "
+         "passed); copy/link destinations are <working dir>/<basename>; rejections surface as the staging/packaging "
+         "error. Decided for every archive and manifest at once; two genuine defects were repaired by fix: commits. The "
+         "file-system effect of a concrete archive is not executed.",
+    technique="source-to-sink path-expression analysis (normalisation + containment recognition), CFG dominance, "
+              "handler/raise class agreement",
+    design="3/C18")
+
 NOT_APPLICABLE = {
     "C20": "arithmetic over floating-point stage weights (sums, int(w*1000) truncation, fallback split) for every "
            "stage count: no structural clause is a necessary condition; needs numeric exploration or a solver, i.e. "
